@@ -132,6 +132,12 @@ def gen_case(rng, tier, index):
         passes.append(regs)
     case["passes"] = passes
     case["driver"] = rng.choice(["ctx", "pm"])
+    if not again and rng.random() < 0.2:
+        # the same context (or a pass) also adds a whole function: no scope
+        # designates it, it did not exist when the scopes were registered
+        nops = [rng.choice(gen_rewrite.ORD_KEYS)
+                for _ in range(rng.randrange(0, 3))]
+        case["newfunc"] = {"name": "newfn0", "body": nops}
     case["own_function_analysis"] = rng.random() < 0.25
     return case
 
@@ -424,6 +430,19 @@ def run_case(case):
                 ctx.register_insert(to_scope(reg["scope"]), mk_patch(r, reg))
             except UnresolvableScopeError:
                 refused.append(r)
+    newfn = {}
+
+    def add_function(ctx):
+        nf = case.get("newfunc")
+        if nf and not newfn:
+            lines = [{"k": "mark", "imm": mark_imm(case, 60, 0)}] + [
+                {"k": k} for k in nf["body"]] + [{"k": "ret"}]
+            newfn["want"] = b"".join(vocab.encode(isa, ln["k"], ln.get("imm"))
+                                     for ln in lines)
+            text = rewrite.patch_text(isa, lines)
+            newfn["sym"] = ctx.register_insert_function(
+                nf["name"], Patch.from_function(lambda c: text,
+                                                Constraints()))
     exc = None
     try:
         if case["driver"] == "ctx":
@@ -438,7 +457,9 @@ def run_case(case):
                 ctr["own_function_analysis"] = 1
             ctx = RewritingContext(m, fns)
             base = 0
-            for regs in case["passes"]:
+            for k, regs in enumerate(case["passes"]):
+                if k == len(case["passes"]) // 2:
+                    add_function(ctx)
                 register_all(ctx, regs, base)
                 base += len(regs)
             ctx.apply()
@@ -451,6 +472,8 @@ def run_case(case):
                         self.regs, self.base = regs, base
 
                     def begin_module(self, module, functions, rctx):
+                        if self.base == 0:
+                            add_function(rctx)
                         register_all(rctx, self.regs, self.base)
                 pm.add(Ps(regs, base))
                 base += len(regs)
@@ -516,6 +539,18 @@ def run_case(case):
                 traceback.format_exception(type(exc), exc,
                                            exc.__traceback__))[-1500:]})
         return {"sig": None, "violations": viol, "counters": ctr}
+    if newfn:
+        # the inserted function holds its own body and nothing else
+        ctr["inserted_functions_checked"] = 1
+        blk = newfn["sym"].referent
+        bi = getattr(blk, "byte_interval", None)
+        got = bytes(bi.contents) if bi is not None else None
+        if got != newfn["want"]:
+            viol.append({
+                "key": "scope:applied-to-a-function-inserted-by-the-same-"
+                       "context",
+                "msg": f"{got.hex() if got is not None else None} != "
+                       f"{newfn['want'].hex()}"})
     mcase = dict(case, edits=edits)
     lst = rewrite.expected(mcase)
     exp = lst.layout()
